@@ -1,7 +1,9 @@
 package main
 
 import (
+	"bytes"
 	"fmt"
+	"io"
 	"net/http"
 	"net/url"
 
@@ -18,6 +20,9 @@ var c08Codes = []int{-1, 0, 100, 200, 200, 201, 204, 301, 404, 404, 500, 599}
 var c08Bytes = []string{"", "a", "hello", "x\n", "0123456789", "é", "<b>"}
 
 func c08Op(r *Rng) Sx {
+	if r.Chance(1, 12) {
+		return L(A("cp"), SB([]byte(r.Pick(c08Bytes))))
+	}
 	switch r.Intn(12) {
 	case 0, 1, 2:
 		return L(A("st"), I(c08Codes[r.Intn(len(c08Codes))]))
@@ -51,6 +56,17 @@ func c08Gen(r *Rng, tier string, i int) Sx {
 		}
 		hs[h][side] = append(hs[h][side], c08Op(r))
 	}
+	// AbortWithStatus where it cannot skip anything: in the last handler, or after Next in an outer one
+	if r.Chance(1, 5) {
+		h := r.Intn(nh)
+		side := 1
+		if h == nh-1 {
+			side = 0
+		}
+		k := r.Intn(len(hs[h][side]) + 1)
+		ab := L(A("ab"), I(c08Codes[r.Intn(len(c08Codes))]))
+		hs[h][side] = append(hs[h][side][:k], append([]Sx{ab}, hs[h][side][k:]...)...)
+	}
 	var script []Sx
 	for k := r.Intn(4); k > 0; k-- {
 		script = append(script, I(r.Intn(6)))
@@ -59,7 +75,7 @@ func c08Gen(r *Rng, tier string, i int) Sx {
 	for _, h := range hs {
 		std := len(h[1]) == 0 && r.Chance(1, 5)
 		for _, op := range h[0] {
-			if op.Head() == "ob" {
+			if op.Head() == "ob" || op.Head() == "ab" {
 				std = false
 			}
 		}
@@ -88,6 +104,10 @@ func wopRun(c *rux.Context, op Sx, obs *[]Sx) {
 		http.Redirect(c.Resp, c.Req, op.List[1].Str(), op.List[2].Int())
 	case "ob":
 		*obs = append(*obs, L(I(c.StatusCode()), I(c.Length())))
+	case "cp": // io.Copy from a plain reader (what Stream / http.ServeContent do)
+		_, _ = io.Copy(c.Resp, struct{ io.Reader }{bytes.NewReader(op.List[1].Bytes())})
+	case "ab": // AbortWithStatus without a message: records the status like SetStatus (used where no handler is left to skip)
+		c.AbortWithStatus(op.List[1].Int())
 	default:
 		panic("bad writer op " + op.String())
 	}
@@ -107,6 +127,8 @@ func wopRunStd(w http.ResponseWriter, rq *http.Request, op Sx) {
 		http.Error(w, string(op.List[1].Bytes()), op.List[2].Int())
 	case "rd":
 		http.Redirect(w, rq, op.List[1].Str(), op.List[2].Int())
+	case "cp":
+		_, _ = io.Copy(w, struct{ io.Reader }{bytes.NewReader(op.List[1].Bytes())})
 	default:
 		panic("bad std writer op " + op.String())
 	}
